@@ -398,6 +398,9 @@ def expr(fn, o, depth=14, transparent=TRANSPARENT, mut_as_phi=False):
         return ("phi", l, fields)
     if len(ds) != 1:
         return ("phi", l, fields)
+    if 1 <= l <= fn.d["argc"]:
+        # a parameter that is assigned to has two definitions: the caller's value and the assignment
+        return ("phi", l, fields)
     if mut_as_phi and l in mut_borrowed(fn):
         return ("phi", l, fields)
     return _from_def(fn, ds[0], fields, depth, transparent, mut_as_phi)
